@@ -7,6 +7,7 @@ from . import engine as E
 
 LOG = []          # (worker name, task id) for every body that started
 INIT_LOG = []     # (worker name, args) for every initializer run
+PICKLER_RES_LOG = []  # (task id, pickler name in force in the worker when the result is pickled)
 PICKLER_LOG = []  # (task id, pickler name in force in the worker when the body runs)
 
 
@@ -49,6 +50,13 @@ class Payload:
 
     def __repr__(self):
         return f"Payload({self.v})"
+
+    def __reduce__(self):
+        # the pickler in force when a worker pickles the result of task v/10 (what the property is about)
+        me = E.ENG.me() if E.ENG is not None else None
+        if me is not None and me.kind == "proc" and E.WORLD is not None:
+            PICKLER_RES_LOG.append((self.v // 10, sim_get_pickler()))
+        return (Payload, (self.v,))
 
 
 class TaskError(ValueError):
